@@ -12,6 +12,8 @@ pub mod c05;
 pub mod c06;
 pub mod c07;
 pub mod c08;
+pub mod c09;
+pub mod c10;
 pub mod c12;
 pub mod c13;
 
@@ -26,6 +28,8 @@ pub fn run(ctx: &Ctx) -> i32 {
         "C06" => c06::run(ctx),
         "C07" => c07::run(ctx),
         "C08" => c08::run(ctx),
+        "C09" => c09::run(ctx),
+        "C10" => c10::run(ctx),
         "C12" => c12::run(ctx),
         "C13" => c13::run(ctx),
         other => {
@@ -47,6 +51,8 @@ pub fn replay(ctx: &Ctx, v: &Value) -> i32 {
         "C06" => c06::replay(ctx, case),
         "C07" => c07::replay(ctx, case),
         "C08" => c08::replay(ctx, case),
+        "C09" => c09::replay(ctx, case),
+        "C10" => c10::replay(ctx, case),
         "C12" => c12::replay(ctx, case),
         "C13" => c13::replay(ctx, case),
         other => {
